@@ -124,10 +124,27 @@ def kind_of(prop, todo):
     raise WorldError("property class not understood: %s.%s" % (t.__module__, n))
 
 
+def default_of(name, prop):
+    """the value `prop.default()` puts into the object: must be immutable"""
+    from stix2.utils import NOW
+    v = prop.default()
+    if v is NOW:
+        return ["now"]
+    if name == "id" and isinstance(v, str):
+        return ["id"]
+    if isinstance(v, bool):
+        return ["b", v]
+    if isinstance(v, str):
+        return ["s", v]
+    if isinstance(v, int):
+        return ["i", v]
+    raise WorldError("default of %s is not an immutable value: %r" % (name, type(v)))
+
+
 def world():
     import stix2.registry as R
     from stix2.v21.base import _Observable as Obs21
-    classes, registry, det_id = {}, [], []
+    classes, registry, det_id, defaults = {}, [], [], {}
     todo = []
     for ver, cats in R.STIX2_OBJ_MAPS.items():
         for cat in ("objects", "observables", "extensions"):
@@ -146,9 +163,10 @@ def world():
         if n in classes:
             continue
         classes[n] = [[pn, kind_of(p, todo)] for pn, p in cls._properties.items()]
+        defaults[n] = [[pn, default_of(pn, p)] for pn, p in cls._properties.items() if hasattr(p, "default")]
         if issubclass(cls, Obs21):
             det_id.append(n)
-    return {"classes": classes, "registry": registry, "det_id": sorted(det_id)}
+    return {"classes": classes, "registry": registry, "det_id": sorted(det_id), "defaults": defaults}
 
 
 # --------------------------------------------------------------------------
@@ -295,6 +313,33 @@ def kw_of(env, op, key="kw"):
     return {} if i is None else env[i]
 
 
+def backing(x, depth=0):
+    """what a store-like object keeps its content in (identity of the table /
+    directory): objects with a common backing legitimately change together"""
+    out = set()
+    if depth > 4:
+        return out
+    if isinstance(x, (stix2.MemoryStore, stix2.MemorySink, stix2.MemorySource)):
+        out.add(("mem", id(x._data)))
+    elif isinstance(x, stix2.FileSystemStore):
+        out.add(("fs", os.path.realpath(x.sink._stix_dir)))
+    elif isinstance(x, (stix2.FileSystemSink, stix2.FileSystemSource)):
+        out.add(("fs", os.path.realpath(x._stix_dir)))
+    elif isinstance(x, stix2.CompositeDataSource):
+        for d in x.get_all_data_sources():
+            out |= backing(d, depth + 1)
+    elif isinstance(x, stix2.Environment):
+        for a in ("sink", "source"):
+            if getattr(x, a, None) is not None:
+                out |= backing(getattr(x, a), depth + 1)
+    return out
+
+
+def sharing_store(env, target):
+    b = backing(target)
+    return tuple(i for i, x in enumerate(env) if x is not None and backing(x) & b)
+
+
 def run_op(op, env, extra):
     """Returns (result, extra, exempt) -- exempt: env indices the operation is
     entitled to change (the store it stores into).  `extra` is filled in
@@ -411,7 +456,8 @@ def run_op(op, env, extra):
         kw = {}
         if op.get("version"):
             kw["version"] = op["version"]
-        return st.add(env[op["arg"]], **kw), extra, (op["store"],)
+        ex = sharing_store(env, st)
+        return st.add(env[op["arg"]], **kw), extra, ex
     if o == "store_get":
         return env[op["store"]].get(op["id"]), extra, ()
     if o == "store_all_versions":
@@ -442,9 +488,7 @@ def run_op(op, env, extra):
         return env[op["env"]].create(cls_of(op["cls"]), **kw_of(env, op)), extra, ()
     if o == "env_add":
         e = env[op["env"]]
-        exempt = [op["env"]] + [i for i, x in enumerate(env) if x is getattr(e, "sink", None) or
-                                (isinstance(x, stix2.MemoryStore) and x.sink is getattr(e, "sink", None)) or
-                                (isinstance(x, stix2.FileSystemStore) and x.sink is getattr(e, "sink", None))]
+        exempt = sharing_store(env, e)
         return e.add(env[op["arg"]]), extra, tuple(exempt)
     if o == "env_get":
         return env[op["env"]].get(op["id"]), extra, ()
@@ -560,10 +604,10 @@ def run_case(case):
         except Exception as e:  # noqa: BLE001
             exc = type(e).__name__
             extra["msg"] = str(e)[:160]
-            if op["op"] in ("store_add",):
-                exempt = (op["store"],)
-            if op["op"] == "env_add":
-                exempt = tuple(range(len(env)))  # cannot tell which store; not used on error
+            if op["op"] == "store_add" and env[op["store"]] is not None:
+                exempt = sharing_store(env, env[op["store"]])
+            if op["op"] == "env_add" and env[op["env"]] is not None:
+                exempt = sharing_store(env, env[op["env"]])
         after = [json.dumps(snap(e), sort_keys=True, default=str) for e in env]
         mut = []
         for i, (b, a) in enumerate(zip(before, after)):
